@@ -1,10 +1,15 @@
 """Crossbar access matrix (shared by C06 wishbone.Crossbar and C08 AXILiteCrossbar / AXICrossbar).
 
-The M x N matrix of point-to-point interfaces must be indexed [master][slave]: the outer comprehension ranges over the masters,
-the inner one over the slaves; every master is decoded into its *row* (zip(matrix, masters)) and every slave bus arbitrates its
-*column* (zip(transpose(matrix), busses)).  With the loops swapped zip() truncates silently whenever M != N: some slaves become
-unreachable / some masters are never connected, although the design elaborates."""
+M masters and N slaves are joined by M x N point-to-point interfaces; master i is decoded onto the N interfaces [i][0..N-1], paired
+with the slaves' address matchers in slave order, and slave j arbitrates the M interfaces [0..M-1][j].  With the two index roles
+mixed up zip() truncates silently whenever M != N: some slaves become unreachable / some masters are never connected, although the
+design elaborates.
+
+Decided by abstract interpretation (lxs/pyconst.py) of the constructor with symbolic element lists of two different lengths
+(2 masters x 3 slaves and 3 x 2): the interfaces are opaque tokens, the recorded Decoder / Arbiter constructor calls are compared
+with the wiring above.  How the matrix is built (nested comprehension, nested loops, helper) does not matter."""
 import ast
+from . import pyconst
 from .core import norm
 
 
@@ -12,39 +17,61 @@ def crossbar_shape(ctx, rid, rel, cls, decoder_cls, arbiter_cls):
     m = ctx.mod(rel)
     init = m.method(cls, "__init__")
     ctx.analysed["functions"].add(f"{rel}::{cls}.__init__")
-    mats = [n for n in ast.walk(init) if isinstance(n, ast.Assign) and isinstance(n.value, ast.ListComp) and isinstance(n.value.elt, ast.ListComp)
-            and isinstance(n.targets[0], ast.Name)]
-    ctx.need(len(mats) == 1, f"{cls}: access matrix (list of lists) not found")
-    mat = mats[0]
-    name = mat.targets[0].id
-    outer, inner = mat.value.generators, mat.value.elt.generators
-    ok = len(outer) == 1 and len(inner) == 1 and norm(outer[0].iter) == "masters" and norm(inner[0].iter) == "slaves" and \
-        not outer[0].ifs and not inner[0].ifs
-    ctx.ob(rid, rel, cls, "access matrix is [master][slave] (outer loop masters, inner loop slaves)", ok,
-           "" if ok else f"{name} = [[... for _ in {norm(inner[0].iter) if inner else '?'}] for _ in {norm(outer[0].iter) if outer else '?'}]: rows are zipped "
-                         f"with the masters and columns with the slave busses below; with M != N masters/slaves zip() truncates and the last "
-                         f"slaves are unreachable (or the last masters unconnected)", mat)
-    # transposed view (either a named transposed copy or zip(*matrix) used directly)
-    tnames = {name: "rows"}
-    for n in ast.walk(init):
-        if isinstance(n, ast.Assign) and isinstance(n.targets[0], ast.Name) and norm(n.value) in (f"list(zip(*{name}))", f"zip(*{name})"):
-            tnames[n.targets[0].id] = "cols"
-    dec = arb = None
-    for lp in [n for n in ast.walk(init) if isinstance(n, ast.For)]:
-        it = lp.iter
-        if not (isinstance(it, ast.Call) and norm(it.func) == "zip" and len(it.args) == 2):
-            continue
-        a0 = norm(it.args[0])
-        view = tnames.get(a0) or ("cols" if a0 == f"zip(*{name})" else None)
-        calls = [norm(c.func) for c in ast.walk(lp) if isinstance(c, ast.Call)]
-        if decoder_cls in calls:
-            dec = (view, norm(it.args[1]))
-        if arbiter_cls in calls:
-            arb = (view, norm(it.args[1]))
-    ok = dec == ("rows", "masters")
-    ctx.ob(rid, rel, cls, f"one {decoder_cls} per master, on that master's row", ok, "" if ok else f"decoder loop zips {dec}", init)
-    ok = arb == ("cols", "busses")
-    ctx.ob(rid, rel, cls, f"one {arbiter_cls} per slave bus, on that slave's column", ok, "" if ok else f"arbiter loop zips {arb}", init)
-    bz = [n for n in ast.walk(init) if isinstance(n, ast.Assign) and norm(n.value) == "zip(*slaves)"]
-    ok = len(bz) == 1 and norm(bz[0].targets[0]) == "(matches, busses)"
-    ctx.ob(rid, rel, cls, "slaves unzipped into (matches, busses) in this order", ok, "" if ok else f"{[norm(b) for b in bz]}", init)
+    verdict = {}
+    for M, N in ((2, 3), (3, 2)):
+        masters = [pyconst.Tok("master", i) for i in range(M)]
+        slaves = [(pyconst.Tok("match", j), pyconst.Tok("bus", j)) for j in range(N)]
+        env = dict(pyconst.module_consts(m.tree))
+        env.update(masters=masters, slaves=slaves)
+        it = pyconst.Interp(env, objects=True)
+        try:
+            it.run(init.body)
+        except Exception as e:          # interpreter limits
+            ctx.need(False, f"{cls}.__init__ cannot be interpreted: {e}")
+        decs = [o for o in it.created if o.cls == decoder_cls]
+        arbs = [o for o in it.created if o.cls == arbiter_cls]
+        ctx.need(decs or arbs, f"{cls}: no {decoder_cls} / {arbiter_cls} is constructed (anchor changed)")
+        problems = []
+        acc = {}        # (i, j) -> interface token
+        # decoders: one per master, N (matcher, interface) pairs in slave order
+        seen_m = []
+        for d in decs:
+            mi = d.args[0] if d.args else None
+            rows = d.args[1] if len(d.args) > 1 else None
+            if not isinstance(mi, pyconst.Tok) or mi.kind != "master" or not isinstance(rows, (list, tuple)):
+                problems.append(f"{decoder_cls} at L{d.line} is not built on one master and a list of (matcher, interface) pairs")
+                continue
+            seen_m.append(mi.n)
+            if len(rows) != N:
+                problems.append(f"{decoder_cls} of master {mi.n} sees {len(rows)} of the {N} slaves")
+            for j, pr in enumerate(rows):
+                if not (isinstance(pr, tuple) and len(pr) == 2 and isinstance(pr[0], pyconst.Tok) and pr[0] == pyconst.Tok("match", j)
+                        and isinstance(pr[1], pyconst.Obj)):
+                    problems.append(f"{decoder_cls} of master {mi.n}: entry {j} is {pr!r}, not (matcher of slave {j}, an access interface)")
+                    continue
+                acc[(mi.n, j)] = pr[1]
+        if sorted(seen_m) != list(range(M)):
+            problems.append(f"masters decoded: {sorted(seen_m)} of {list(range(M))}")
+        seen_s = []
+        for a in arbs:
+            col = a.args[0] if a.args else None
+            bus = a.args[1] if len(a.args) > 1 else None
+            if not isinstance(bus, pyconst.Tok) or bus.kind != "bus" or not isinstance(col, (list, tuple)):
+                problems.append(f"{arbiter_cls} at L{a.line} is not built on a list of interfaces and one slave bus")
+                continue
+            seen_s.append(bus.n)
+            want = [acc.get((i, bus.n)) for i in range(M)]
+            if len(col) != M or any(x is not w for x, w in zip(col, want)):
+                problems.append(f"{arbiter_cls} of slave {bus.n} arbitrates {list(col)!r}, expected the interfaces {want!r} that the "
+                                f"{M} masters' decoders use for slave {bus.n}")
+        if sorted(seen_s) != list(range(N)):
+            problems.append(f"slave busses arbitrated: {sorted(seen_s)} of {list(range(N))}")
+        toks = [id(v) for v in acc.values()]
+        if len(set(toks)) != len(toks):
+            problems.append("one access interface serves two (master, slave) pairs")
+        verdict[(M, N)] = problems
+    for (M, N), problems in verdict.items():
+        ok = not problems
+        ctx.ob(rid, rel, cls, f"{M} masters x {N} slaves: one {decoder_cls} per master on its row, one {arbiter_cls} per slave bus on its column",
+               ok, "" if ok else "; ".join(problems[:4]) + ": with M != N masters/slaves zip() truncates and the last slaves are unreachable "
+                                                           "(or the last masters unconnected)", init)
